@@ -182,7 +182,7 @@ def length_field_mutants(data, regs, rng, per_region):
 LIMITED = ["/bin/sh", "-c", "trap '' XFSZ; ulimit -c 0; ulimit -f 2097152; ulimit -v 12582912; exec \"$@\"", "sh"]
 
 
-def run_plan(bindir, mode, base, mutants, scratch, workers=None, stall_s=60, binary="mvprobe", extra_env=None):
+def run_plan(bindir, mode, base, mutants, scratch, workers=None, stall_s=60, binary="mvprobe", extra_env=None, extra_args=None):
     """Run every mutant through `mvprobe fault`. Returns (results by id, baseline, deaths).
     A process that dies or stalls is restarted after the mutant that was in flight; that mutant's
     result is {"died": {...}} (signal / exit code / stall) with the API call that was running."""
@@ -214,8 +214,7 @@ def run_plan(bindir, mode, base, mutants, scratch, workers=None, stall_s=60, bin
                 env.update(extra_env)
             errf = open(os.path.join(wd, "stderr.txt"), "wb")
             argv = [os.path.join(bindir, binary), "fault", "--mode", mode, "--base", base, "--plan", plan, "--results", res, "--scratch", wd]
-            if mode != "c20":
-                pass
+            argv += extra_args or []
             p = subprocess.Popen(LIMITED + argv, env=env, stdout=subprocess.DEVNULL, stderr=errf)
             last_size, last_change, stalled = -1, time.time(), False
             while p.poll() is None:
@@ -284,7 +283,7 @@ def run_plan(bindir, mode, base, mutants, scratch, workers=None, stall_s=60, bin
 
 
 def describe(m):
-    d = {k: v for k, v in m.items() if k in ("kind", "off", "len", "xor", "bytes", "value", "region", "shape", "at", "seed", "magic", "doctor_mask", "damage")}
+    d = {k: v for k, v in m.items() if k in ("kind", "off", "len", "xor", "bytes", "value", "region", "shape", "at", "seed", "magic", "doctor_mask", "damage", "event")}
     return d
 
 
@@ -510,6 +509,239 @@ def c22(pid, tier, seed, scratch):
                                        "address space limited to 12 GiB and file size to 1 GiB per probe process (an attempt to grow a file beyond that fails with EFBIG); an allocation failure abort is reported as a process death",
                                        "the harness is built with debug assertions and overflow checks on, as the repository's own test profile is",
                                        "structure-aware mutation only; no coverage feedback"]}
+
+
+# ------------------------------------------------------------------------------------------ C21
+
+MASK_NAMES = ["rebuild_time", "rebuild_lex", "rebuild_vec", "vacuum", "dry_run"]
+
+
+def mask_text(mask):
+    return "+".join(n for i, n in enumerate(MASK_NAMES) if mask & (1 << i)) or "default"
+
+
+def mask_class(mask):
+    parts = []
+    if mask & 7:
+        parts.append("rebuild")
+    if mask & 8:
+        parts.append("vacuum")
+    return "+".join(parts) or "default"
+
+
+def targeted_damage(data, lay, regs, rng):
+    """Damage restricted to what C21 names: header pointer, header/TOC checksum, footer, index segments."""
+    out = []
+    n = len(data)
+    fo = int.from_bytes(data[8:16], "little")
+    for v, shape in ((0, "zero"), (fo + 1, "plus-one"), (fo - 1, "minus-one"), (n + 4096, "beyond-eof"), (rng.randrange(4096, n), "random")):
+        out.append({"kind": "set", "off": 8, "bytes": int(v).to_bytes(8, "little").hex(), "damage": "header-footer-offset", "shape": shape})
+    for _ in range(3):
+        out.append({"kind": "flip", "off": rng.randrange(48, 80), "xor": rng.choice([1, 0x80, 0xFF]), "damage": "header-toc-checksum"})
+    out.append({"kind": "zero", "off": 48, "len": 32, "damage": "header-toc-checksum", "shape": "zeroed"})
+    toc = next(((s, e) for nm, s, e in regs if nm == "toc"), None)
+    foot = next(((s, e) for nm, s, e in regs if nm == "footer"), None)
+    if toc:
+        for _ in range(3):
+            out.append({"kind": "flip", "off": rng.randrange(toc[1] - 32, toc[1]), "xor": rng.choice([1, 0x80, 0xFF]), "damage": "toc-checksum-field"})
+    if foot:
+        for _ in range(4):
+            out.append({"kind": "flip", "off": rng.randrange(foot[0], foot[1]), "xor": rng.choice([1, 0x80, 0xFF]), "damage": "footer"})
+        out.append({"kind": "zero", "off": foot[0], "len": foot[1] - foot[0], "damage": "footer", "shape": "zeroed"})
+        out.append({"kind": "trunc", "len": foot[1] - rng.randrange(1, foot[1] - foot[0]), "damage": "footer", "shape": "cut-inside-footer"})
+    for nm, s, e in regs:
+        if nm in ("time_index", "vec", "tantivy_segments"):
+            out.append({"kind": "zero", "off": s, "len": e - s, "damage": f"index:{nm}", "shape": "zeroed"})
+            out.append({"kind": "flip", "off": rng.randrange(s, e), "xor": 0xFF, "damage": f"index:{nm}", "shape": "one-byte"})
+    return out
+
+
+def healed_diff(base, got):
+    """After doctor every committed active frame must be there, readable and identical."""
+    out = []
+    bf, gf = base.get("frames") or [], got.get("frames") or []
+    if len(gf) < len(bf):
+        out.append("frames-missing")
+    for b, g in zip(bf, gf):
+        if b.get("status") != "Active":
+            continue
+        if g.get("err"):
+            out.append("frame-unreadable")
+            continue
+        if g.get("status") != "Active":
+            out.append("active-frame-no-longer-active")
+            continue
+        for k in ("uri", "role", "parent", "ts", "title"):
+            if b.get(k) != g.get(k):
+                out.append(f"frame-meta:{k}")
+        for k in ("payload", "blob", "text"):
+            if b.get(k) != g.get(k):
+                out.append(f"content:{k}")
+    for k in ("timeline",):
+        if base.get(k) != got.get(k):
+            out.append(k)
+    bs = [x for x in (base.get("searches") or [])]
+    gs = [x for x in (got.get("searches") or [])]
+    if bs != gs:
+        out.append("search")
+    seen, res = set(), []
+    for o in out:
+        if o not in seen:
+            seen.add(o)
+            res.append(o)
+    return res
+
+
+def judge_c21(m, r, states, baseline):
+    """(key, text) list for one doctor case. `m` carries damage class, mask and (for crash images) the crash context."""
+    out = []
+    mask = m.get("doctor_mask", 0)
+    cls = m.get("damage", "?")
+    oc = mask_class(mask)
+    tag = cls
+    desc = f"{describe(m)} doctor({mask_text(mask)})"
+    if "died" in r:
+        d = r["died"]
+        return [(f"C21:process-died:{d['how']}:{d.get('api')}:{cls}", f"{desc} -> the process died ({d['how']}) inside {d.get('api')}: {d.get('stderr', '')[-160:]}")]
+    for p in r.get("panics") or []:
+        out.append((f"C21:panic:{p.get('panic_site') or 'unknown'}", f"{desc} -> {p.get('api')} panicked at {p.get('panic_site')}: {p.get('message', '')[:140]}"))
+    doc = r.get("doctor") or {}
+    st = doc.get("status")
+    if mask & 16:
+        if r.get("bytes_changed"):
+            out.append((f"C21:dry-run-modified-the-file:{cls}", f"{desc} -> dry_run changed the file bytes (status {st})"))
+        return out
+    if st in ("err", "Failed", "Partial", "PlanOnly"):
+        out.append((f"C21:not-healed:doctor-status={st}:{tag}", f"{desc} -> doctor returned {st} {doc.get('err', '')} {doc.get('error', '')} findings {doc.get('findings')}"))
+    op = r.get("open") or {}
+    if not op.get("ok"):
+        if not op.get("panic"):
+            out.append((f"C21:not-healed:open-fails-after-doctor:{tag}", f"{desc} -> doctor {st}, then open fails: {op.get('err')}"))
+        return out
+    v = r.get("verify")
+    if v != "Passed":
+        out.append((f"C21:not-healed:verify={v}:{tag}", f"{desc} -> doctor {st}, verify(deep) = {v} (failed checks {r.get('verify_failed_checks')})"))
+    d2 = r.get("doctor2")
+    if d2 != "Clean":
+        out.append((f"C21:second-doctor-run-not-clean:{d2}:{tag}", f"{desc} -> first run {st}, an immediate second run reports {d2} {r.get('doctor2_findings')}"))
+    obs = r.get("obs") or {}
+    if m.get("crash_ctx") is not None:
+        verdict = X.judge(dict(obs, open="ok"), m["crash_ctx"], states)
+        if verdict is not None:
+            out.append((f"C21:acknowledged-data-altered:{verdict[0]}:{tag}", f"{desc} -> after doctor the documents are not a state the history allows: {verdict[1]}"))
+    elif baseline.get("BASELINE"):
+        diff = healed_diff(baseline["BASELINE"], obs)
+        if diff:
+            out.append((f"C21:committed-data-altered:{diff[0]}:{tag}", f"{desc} -> after doctor the committed data differs: {diff}"))
+    return out
+
+
+def c21(pid, tier, seed, scratch):
+    bindir = C.build()
+    X.ensure_shim()
+    rng = random.Random(seed)
+    rep = _report("doctor", seed,
+                  "inputs: (a) committed memories damaged only in the header's footer pointer, the header's or the TOC's checksum field, the footer bytes, or one index segment (time index, vector index, "
+                  "an embedded Tantivy segment) zeroed or flipped; (b) crash-left files: process-crash images of recorded histories (states after every file-system call inside put / update / delete / "
+                  "commit / log growth / vacuum / ticket), incl. images with acknowledged records still in the log; each x doctor option combinations (rebuild_time/lex/vec, vacuum, dry_run: all 32 in "
+                  "thorough, sampled in quick). Judged: doctor status, open, verify(deep) = Passed, an immediate second run with default options = Clean, dry_run leaves the bytes unchanged, and the data: every committed "
+                  "active frame identical (a) / the documents form a state the history allows at that crash point (b). a case is one doctor run (+ the follow-up calls); distinct = distinct (input, options)")
+    rep["required_counters"] = ["doctor_runs", "targeted_damage_cases", "crash_image_cases", "healed_and_verified"]
+    classes = set()
+    masks_all = list(range(32))
+    # ---- (a) targeted damage
+    files = [(seed * 100 + 21, 7, "tiny"), (seed * 100 + 22, 10, "corpus")] if tier == "quick" else [(seed * 100 + 21, 7, "tiny"), (seed * 100 + 22, 10, "corpus"), (seed * 100 + 23, 9, "tiny"), (seed * 100 + 24, 14, "corpus")]
+    for fi, (fseed, ops, profile) in enumerate(files):
+        wd = os.path.join(scratch, f"f{fi}")
+        os.makedirs(wd, exist_ok=True)
+        try:
+            path, st = make_corpus(bindir, fseed, ops, wd, profile)
+        except C.Inconclusive as e:
+            rep["inconclusive"].append({"case": f"corpus {fseed}", "reason": str(e)[:300]})
+            continue
+        data = open(path, "rb").read()
+        lay = layout(bindir, path)
+        regs = regions_of(lay, len(data))
+        muts = []
+        for dmg in [{"kind": "none", "damage": "undamaged"}] + targeted_damage(data, lay, regs, rng):
+            masks = masks_all if tier == "thorough" else rng.sample(masks_all, 3) + [0]
+            for mask in sorted(set(masks)):
+                mm = dict(dmg)
+                mm["doctor_mask"] = mask
+                muts.append(mm)
+        results, baseline, deaths = run_plan(bindir, "c21", path, muts, os.path.join(wd, "run"), stall_s=120, extra_args=["--baseline"])
+        for m in muts:
+            r = results.get(m["id"])
+            if r is None or "skipped" in r:
+                continue
+            rep["evaluations"] += 1
+            rep["distinct_nontrivial"] += 1
+            _count(rep, "doctor_runs")
+            _count(rep, "targeted_damage_cases")
+            _count(rep, f"damage[{m['damage']}]")
+            _count(rep, f"doctor_status[{(r.get('doctor') or {}).get('status')}]")
+            classes.add(m["damage"])
+            detail = {"mode": "fault", "check": "c21", "corpus_seed": fseed, "corpus_ops": ops, "corpus_profile": profile, "mutant": describe(m)}
+            verdicts = judge_c21(m, r, None, baseline)
+            if not verdicts and not (m["doctor_mask"] & 16):
+                _count(rep, "healed_and_verified")
+            for key, what in verdicts:
+                _violation(rep, key, f"file seed {fseed}: {what}", detail)
+        if len(rep["samples"]) < 2:
+            rep["samples"].append({"corpus_seed": fseed, "file_bytes": len(data), "cases": len(muts), "example": describe(muts[len(muts) // 2])})
+        shutil.rmtree(wd, ignore_errors=True)
+    # ---- (b) crash-left files
+    n_hist, ops, limit, per_image = (3, 12, 40, 2) if tier == "quick" else (16, 24, 160, 4)
+    for h in range(n_hist):
+        wd = os.path.join(scratch, f"h{h}")
+        os.makedirs(wd, exist_ok=True)
+        hseed = seed * 1000 + 300 + h
+        try:
+            rec = X.record(bindir, hseed, ops, wd)
+        except C.Inconclusive as e:
+            rep["inconclusive"].append({"case": f"history {hseed}", "reason": str(e)[:300]})
+            continue
+        imgs = X.process_crash_images(rec, limit=limit, rng=rng)
+        imgdir = os.path.join(wd, "imgs")
+        os.makedirs(imgdir, exist_ok=True)
+        muts = []
+        for i, img in enumerate(imgs):
+            ip = os.path.join(imgdir, f"i{i}.mv2")
+            with open(ip, "wb") as f:
+                f.write(img["bytes"])
+            ctx = img["ctx"]
+            stack = ctx.get("phases") or []
+            where = (f"crash-inside:{stack[0]}" if stack else f"crash-inside-op:{ctx['op']}") if ctx["inside"] else f"crash-after-op:{ctx['op']}"
+            for mask in rng.sample([m for m in masks_all if not m & 16], per_image):
+                muts.append({"kind": "file", "path": ip, "damage": where, "doctor_mask": mask, "crash_ctx": ctx, "event": img["k"]})
+        base = os.path.join(imgdir, "i0.mv2") if imgs else None
+        if not base:
+            continue
+        results, _, deaths = run_plan(bindir, "c21", base, muts, os.path.join(wd, "run"), stall_s=120)
+        for m in muts:
+            r = results.get(m["id"])
+            if r is None or "skipped" in r:
+                continue
+            rep["evaluations"] += 1
+            rep["distinct_nontrivial"] += 1
+            _count(rep, "doctor_runs")
+            _count(rep, "crash_image_cases")
+            _count(rep, f"doctor_status[{(r.get('doctor') or {}).get('status')}]")
+            classes.add(m["damage"])
+            detail = {"mode": "crash21", "seed": hseed, "ops": ops, "event_index": m["event"], "doctor_mask": m["doctor_mask"], "ctx": m["crash_ctx"]}
+            verdicts = judge_c21(m, r, rec["states"], {})
+            if not verdicts:
+                _count(rep, "healed_and_verified")
+            for key, what in verdicts:
+                _violation(rep, key, f"history seed {hseed}, image after event {m['event']}: {what}", detail)
+        if len(rep["samples"]) < 4 and imgs:
+            rep["samples"].append({"history_seed": hseed, "operations": [s["op"] for s in rec["states"]], "crash_images": len(imgs), "doctor_cases": len(muts)})
+        shutil.rmtree(wd, ignore_errors=True)
+    rep["counters"]["input_classes_covered"] = len(classes)
+    rep["samples"].append({"input_classes": sorted(classes)})
+    return [rep], [], {"assumptions": ["targeted damage is one fault in one of the structures the property names; crash-left files follow the process-crash model of C02 (completed calls persist, program order)",
+                                       "allowed states for a crash-left file: inside operation j+1 -> {S_j, S_j+1}, between operations -> {S_j}",
+                                       "quick samples the option combinations (always including the defaults); thorough runs all 32 for targeted damage"]}
 
 
 def replay(detail, scratch, pid):
